@@ -30,7 +30,7 @@ ANCHORS = []
 WORKERS = {"quick": 12, "thorough": 16}
 WATCHDOG = {"quick": 1200, "thorough": 3400}
 REQUIRED = {"pair:A-has-resonance-B-lacks": 5, "pair:A-cartesian-B-not": 3, "pair:crossing-reader-classes": 5, "hash-seeds>=2": 1, "exact-reproducibility-run": 2,
-            "history-length>=3": 2, "failed-cartesian-read-then-polar-file": 5, "printing-conversion-with-colours-after-a-returning-one": 2, "text-argument-read-after-another-read": 2, "same-amplitudes-under-two-event-orders-in-one-process": 2, "file-converted-again-after-another": 2, "same-bare-resonance-name-different-sub-lines": 2, "fresh-single-runs": 10, **{f"entry:{e}": 3 for e in ENTRIES}, "across-hash-seeds-compared": 3, "all-ordered-file-pairs": 1}
+            "history-length>=3": 2, "printing-conversion-after-a-failed-returning-one": 2, "failed-cartesian-read-then-polar-file": 5, "printing-conversion-with-colours-after-a-returning-one": 2, "text-argument-read-after-another-read": 2, "same-amplitudes-under-two-event-orders-in-one-process": 2, "file-converted-again-after-another": 2, "same-bare-resonance-name-different-sub-lines": 2, "fresh-single-runs": 10, **{f"entry:{e}": 3 for e in ENTRIES}, "across-hash-seeds-compared": 3, "all-ordered-file-pairs": 1}
 EXHAUSTIVE_NOTE = "all 36 ordered pairs of pool files are run in every tier (entry points rotated over the 25 ordered entry pairs); all ordered triples of 3 files in thorough"
 ASSUMPTIONS = ["inside the fresh interpreters the pure name lookup is memoised per (name, particle-table size); the library's one-time loading of the special particles happens inside each history",
                "the parent cannot instrument the child interpreters with sys.monitoring: anchors are not traced for this property (results are observed at the process boundary)"]
@@ -211,6 +211,8 @@ class Runner:
             ctx.hit("text-argument-read-after-another-read")
         if any(e.endswith("_print") for _, e in hist[1:]):
             ctx.hit("printing-conversion-with-colours-after-a-returning-one")
+        if hist[0][0] == POISON and hist[0][1] in ("cpp", "py") and len(hist) >= 2 and hist[1][1].endswith("_print"):
+            ctx.hit("printing-conversion-after-a-failed-returning-one")
         if hist[0][0] == POISON and len(hist) >= 2:
             ctx.hit("failed-cartesian-read-then-polar-file")
         dn = [f for f, _ in hist if f in (0, 5)]
@@ -299,6 +301,9 @@ def run(ctx):
         jobs.append(([[2, "read_py"], [5, "read_py_text"], [3, "read_cpp_text"]], 1, "text-argument"))
         # a printing conversion (colours on) after string-returning ones: what is printed does not depend on them
         jobs.append(([[0, "cpp"], [1, "cpp_print"]], 0, "printed-after-returned"))
+        # ... and after a string-returning conversion that FAILED: what the next printing conversion sends to the terminal is still all of it
+        jobs.append(([[POISON, "cpp"], [0, "cpp_print"]], 0, "printed-after-failed-returning"))
+        jobs.append(([[POISON, "py"], [1, "py_print"], [2, "cpp_print"]], 0, "printed-after-failed-returning"))
         jobs.append(([[2, "py"], [3, "py_print"], [4, "cpp_print"]], 0, "printed-after-returned"))
         for e in (["py", "cpp"] if ctx.quick else ENTRIES):
             jobs.append(([[3, e], [1, e]], 0, "spline-then-no-constants"))      # file 3 has spline constants, file 1 has no constant line at all
